@@ -285,6 +285,60 @@ def run(prog, rep, tier, repo):
             forms[name] = (f, z, main[0][0])
     rep.floor('gamma-reflection', 1, 'gamma (and ln_gamma when present)')
 
+    # ---- every branch that reduces the argument by a call of gamma / ln_gamma itself (reflection, a recurrence step for large arguments) is an
+    # identity of the true function: with the inner call read as the true Gamma / ln Gamma, the branch's expression equals Gamma(z) / ln Gamma(z)
+    # at exact witnesses that satisfy the branch's own conditions.  (z - 2)*gamma(z - 2) is not Gamma(z).
+    from ..precond import tev, guard_value, Frame, Uneval
+    from ..structs import canon_guard
+
+    def lg(x):
+        try:
+            return math.lgamma(x)
+        except (ValueError, OverflowError):
+            return float('nan')
+
+    def tg(x):
+        try:
+            return math.gamma(x)
+        except (ValueError, OverflowError):
+            return float('inf') if x > 0 else float('nan')
+    truth = {FG + 'gamma': tg, FG + 'ln_gamma': lg}
+    nself = 0
+    for name in ('gamma', 'ln_gamma'):
+        f = prog.func(FG + name)
+        if f is None:
+            continue
+        for v, bb, gs in _sites(f):
+            if not any(tag(q) == 'call' and q[1] in truth for q in subterms(v)):
+                continue
+            nself += 1
+            key = 'self-call-identity:%s:bb%d' % (name, [b_ for _, b_, _ in _sites(f)].index(bb))
+            bad, used = None, 0
+            for zv in (-2.5, -0.75, 0.25, 0.4, 0.7, 1.5, 2.5, 5.0, 20.5, 50.5, 101.5, 120.25, 150.0, 165.5, 171.0):
+                env = {('arg', 1, None): zv, '__fn__': truth}
+                ctx = Frame(f, env=env)
+                if any(guard_value(canon_guard(c_, v_), ctx) is not True for c_, v_ in f.guards().get(bb, [])):
+                    continue
+                try:
+                    got = tev(v, ctx)
+                except Uneval:
+                    continue
+                want = truth[FG + name](zv)
+                if not isinstance(got, float) or got != got or want != want or math.isinf(want):
+                    continue
+                used += 1
+                if abs(got - want) > 1e-9 * max(1.0, abs(want)):
+                    bad = (zv, got, want)
+                    break
+            if bad:
+                rep.viol('self-call-identity', key, '%s(%r) takes the branch %s, which is %.12g when the inner call is exact; the true value is %.12g: the reduction is not an '
+                         'identity of the function' % (name, bad[0], show(v)[:90], bad[1], bad[2]), site_of(f.body))
+            elif used:
+                rep.ok('self-call-identity', key, '%s agrees with the true function at %d witnesses of its branch' % (show(v)[:60], used))
+            else:
+                rep.undecided('self-call-identity', key, 'no witness satisfies the conditions of the branch %s' % show(v)[:60], site_of(f.body), proof=False)
+    rep.floor('self-call-identity', 1, 'reflection branch of gamma')
+
     key = 'lanczos-form'
     if 'gamma' not in forms:
         rep.undecided('lanczos-form', key, 'main branch of gamma not read as one return site', proof=False)
